@@ -36,6 +36,9 @@ type c03Op struct {
 	Msg    string  `json:"msg,omitempty"`
 	Key    int     `json:"key"` // -1: Commit(sign=false), >=0: CommitUsingSpecificKey
 	Spec   int     `json:"spec,omitempty"`
+	// Fault (in-memory backend only): the k-th storage call of this operation
+	// returns an error (0: none; beyond the calls the operation makes: no effect)
+	Fault int `json:"fault,omitempty"`
 }
 
 type c03Case struct {
@@ -100,6 +103,9 @@ func genC03(rt *rapid.T) c03Case {
 		case "autoskip":
 			op.Ref = rapid.SampledFrom(c04Refs[:3]).Draw(rt, "ref")
 		}
+		if i >= c.Legacy && rapid.IntRange(0, 7).Draw(rt, "faulty") == 0 {
+			op.Fault = rapid.IntRange(1, 40).Draw(rt, "faultat")
+		}
 		c.Ops = append(c.Ops, op)
 	}
 	return c
@@ -130,7 +136,7 @@ func runC03(t *testing.T, s *kit.Session, c c03Case) *kit.Failure {
 	if err != nil || len(chain) != 0 {
 		panic(fmt.Sprintf("fresh store has a log: %v %v", chain, err))
 	}
-	successes, refusals := 0, 0
+	successes, refusals, faulted := 0, 0, 0
 	tainted := false
 	transition := false
 	for i, op := range c.Ops {
@@ -140,6 +146,13 @@ func runC03(t *testing.T, s *kit.Session, c c03Case) *kit.Failure {
 		deltaAlso := -1
 		either := false // outcome not pinned by the property (managed refs deliberately out of sync with the log)
 		var opErr error
+		var ost gitstore.Storer = st
+		var fs *kit.FaultStore
+		if op.Fault > 0 && c.Backend != "git" {
+			fs = kit.NewFaultStore(st)
+			fs.FailAt = op.Fault
+			ost = fs
+		}
 		switch op.Op {
 		case "ref", "prop":
 			target := unknown
@@ -153,18 +166,18 @@ func runC03(t *testing.T, s *kit.Session, c c03Case) *kit.Failure {
 				e := rsl.NewReferenceEntry(op.Ref, target)
 				switch {
 				case legacy:
-					opErr = e.CommitWithoutNumber(st)
+					opErr = e.CommitWithoutNumber(ost)
 				case op.Key >= 0:
-					opErr = e.CommitUsingSpecificKey(st, kit.Key(op.Key).PEM)
+					opErr = e.CommitUsingSpecificKey(ost, kit.Key(op.Key).PEM)
 				default:
-					opErr = e.Commit(st, false)
+					opErr = e.Commit(ost, false)
 				}
 			} else {
 				e := rsl.NewPropagationEntry(op.Ref, target, "https://up/A", pool.IDs[4])
 				if op.Key >= 0 {
-					opErr = e.CommitUsingSpecificKey(st, kit.Key(op.Key).PEM)
+					opErr = e.CommitUsingSpecificKey(ost, kit.Key(op.Key).PEM)
 				} else {
-					opErr = e.Commit(st, false)
+					opErr = e.Commit(ost, false)
 				}
 			}
 		case "ann":
@@ -199,21 +212,21 @@ func runC03(t *testing.T, s *kit.Session, c c03Case) *kit.Failure {
 			e := rsl.NewAnnotationEntry(ids, op.Skip, op.Msg)
 			switch {
 			case legacy:
-				opErr = e.CommitWithoutNumber(st)
+				opErr = e.CommitWithoutNumber(ost)
 			case op.Key >= 0:
-				opErr = e.CommitUsingSpecificKey(st, kit.Key(op.Key).PEM)
+				opErr = e.CommitUsingSpecificKey(ost, kit.Key(op.Key).PEM)
 			default:
-				opErr = e.Commit(st, false)
+				opErr = e.Commit(ost, false)
 			}
 		case "stage":
 			md, err := kit.BuildStateMetadata(c03Spec(op.Spec))
 			if err != nil {
 				panic(err)
 			}
-			opErr = (&policy.State{Metadata: md}).Commit(st, "stage", true, false)
+			opErr = (&policy.State{Metadata: md}).Commit(ost, "stage", true, false)
 		case "apply":
 			_, serr := st.GetReference(policy.PolicyStagingRef)
-			opErr = policy.Apply(context.Background(), st, false)
+			opErr = policy.Apply(context.Background(), ost, false)
 			if serr != nil {
 				wantDelta, wantErr = 0, true
 			}
@@ -226,14 +239,22 @@ func runC03(t *testing.T, s *kit.Session, c c03Case) *kit.Failure {
 				}
 				opErr, either = err, true
 			} else {
-				opErr = cur.Commit(st, "attest", true, false)
+				opErr = cur.Commit(ost, "attest", true, false)
 			}
 		case "autoskip":
-			opErr = rsl.SkipAllInvalidReferenceEntriesForRef(st, op.Ref, false)
+			opErr = rsl.SkipAllInvalidReferenceEntriesForRef(ost, op.Ref, false)
 			wantDelta, deltaAlso = 0, 1
 			if opErr != nil {
 				wantErr = true
 			}
+		}
+		if fs != nil && fs.Injected {
+			// a storage failure somewhere inside the operation: it may fail (and must
+			// then have appended nothing) or tolerate the failure; what it leaves in
+			// the managed references is C16's business, so later expectations loosen
+			rsl.VerifResetCache()
+			either, tainted = true, true
+			faulted++
 		}
 		after, err := kit.WalkChain(st, kit.RSLRef)
 		if err != nil {
@@ -303,6 +324,9 @@ func runC03(t *testing.T, s *kit.Session, c c03Case) *kit.Failure {
 	if refusals > 0 {
 		classes = append(classes, "has_refusal")
 	}
+	if faulted > 0 {
+		classes = append(classes, "operation_with_storage_fault")
+	}
 	s.Observe(c, nt, classes...)
 	return nil
 }
@@ -314,7 +338,7 @@ func TestC03(t *testing.T) {
 		kit.DoReplay(s, t, rf, run)
 		return
 	}
-	s.SetRule("rapid: sequences of 1-14 recording operations {reference entry (arbitrary valid ref names incl. refs/gittuf/*, existing or unknown targets, unsigned or signed with a specific key), annotation (1-4 ids drawn from real entries / non-RSL commits / blobs / trees / unknown ids, skip flag, arbitrary message bytes), propagation entry, State.Commit to policy-staging, policy.Apply, Attestations.Commit, SkipAllInvalidReferenceEntriesForRef} starting from an empty log, optionally with a legacy unnumbered prefix (CommitWithoutNumber) that transitions to numbering; after every operation an independent walker (own object reader + own entry parser) checks single parent, consecutive numbers, append-only prefix, exact append count, nothing appended on error, annotations refused unless all ids are entries. Memstore backend plus a git-backed share. Non-trivial: >=3 successful appends and (a refusal or a numbering transition)")
+	s.SetRule("rapid: sequences of 1-14 recording operations {reference entry (arbitrary valid ref names incl. refs/gittuf/*, existing or unknown targets, unsigned or signed with a specific key), annotation (1-4 ids drawn from real entries / non-RSL commits / blobs / trees / unknown ids, skip flag, arbitrary message bytes), propagation entry, State.Commit to policy-staging, policy.Apply, Attestations.Commit, SkipAllInvalidReferenceEntriesForRef} starting from an empty log, optionally with a legacy unnumbered prefix (CommitWithoutNumber) that transitions to numbering; one operation in eight runs with its k-th storage call failing (in-memory backend); after every operation an independent walker (own object reader + own entry parser) checks single parent, consecutive numbers, append-only prefix, exact append count, nothing appended on error, annotations refused unless all ids are entries. Memstore backend plus a git-backed share. Non-trivial: >=3 successful appends and (a refusal or a numbering transition)")
 	kit.Campaign(s, t, "mem", "seq", s.Budget(30_000, 600_000), genC03, run)
 	kit.Campaign(s, t, "git", "seq", s.Budget(48, 640), func(rt *rapid.T) c03Case {
 		c := genC03(rt)
